@@ -138,7 +138,8 @@ Definition host_name_shape (s : str) : bool :=
   forallb (fun c => is_alnum c || memN c [45; 46]) s
   && existsb (fun c => is_alpha c && negb (is_hex c) && negb (memN c [120; 88])) s.
 Definition spec_ip (s : str) : option bool :=
-  if is_nil s || memN 0 s then Some false
+  (* empty, NUL-containing and non-ASCII text (IDNA would normalise it) must be rejected *)
+  if is_nil s || memN 0 s || negb (is_ascii_str s) then Some false
   else if plain_ipv4 s || plain_ipv6 s then Some true
   else if host_name_shape s then Some false
   else None.
